@@ -953,3 +953,49 @@ mutant("c17-machine-flag-ignored", "C17", "R17.c", RGU,
        "            if not self.job_shop_graph.is_removed(\n                machine_node := self.job_shop_graph.get_machine_node(")
 refactor("c17-r-isremoved", "C17", GUT,
          "        if job_shop_graph.removed_nodes[node_id]:\n            continue\n", "        if job_shop_graph.is_removed(node_id):\n            continue\n")
+
+# ------------------------------------------------------------------ C20
+PGC = "job_shop_lib/visualization/_plot_gantt_chart.py"
+GCC = "job_shop_lib/visualization/_gantt_chart_creator.py"
+mutant("c20-lexicographic", "C20", "R20.a", GIF,
+       "        for frame in sorted(os.listdir(frames_dir), key=_frame_number)", "        for frame in sorted(os.listdir(frames_dir))", "the original defect D11")
+mutant("c20-unsorted", "C20", "R20.a", GIF,
+       "        for frame in sorted(os.listdir(frames_dir), key=_frame_number)", "        for frame in os.listdir(frames_dir)")
+mutant("c20-skip-zero-width", "C20", "R20.b", PGC,
+       "            _plot_scheduled_operation(\n                ax, scheduled_op, y_position_for_machines, color\n            )",
+       "            if scheduled_op.operation.duration:\n                _plot_scheduled_operation(\n                    ax, scheduled_op, y_position_for_machines, color\n                )",
+       "zero-duration operations get no bar")
+mutant("c20-duration-as-end", "C20", "R20.b", PGC,
+       "    duration = end_time - start_time\n", "    duration = end_time\n")
+mutant("c20-frame-from-zero", "C20", "R20.c", GIF,
+       "    for i, scheduled_operation in enumerate(schedule_history, start=1):", "    for i, scheduled_operation in enumerate(schedule_history):")
+mutant("c20-plot-before-dispatch", "C20", "R20.c", GIF,
+       """        dispatcher.dispatch(
+            scheduled_operation.operation, scheduled_operation.machine_id
+        )
+        current_time = (
+            None if not plot_current_time else dispatcher.current_time()
+        )
+        fig = plot_function(
+            dispatcher.schedule,
+            makespan,
+            dispatcher.available_operations(),
+            current_time,
+        )""",
+       """        current_time = (
+            None if not plot_current_time else dispatcher.current_time()
+        )
+        fig = plot_function(
+            dispatcher.schedule,
+            makespan,
+            dispatcher.available_operations(),
+            current_time,
+        )
+        dispatcher.dispatch(
+            scheduled_operation.operation, scheduled_operation.machine_id
+        )""")
+mutant("c20-xlim-makespan-always", "C20", "R20.e", PGC,
+       "    xlim = xlim if xlim is not None else makespan", "    xlim = makespan")
+refactor("c20-r-key-lambda", "C20", GIF,
+         "        for frame in sorted(os.listdir(frames_dir), key=_frame_number)",
+         "        for frame in sorted(os.listdir(frames_dir), key=lambda f: int(f.split('_')[-1].split('.')[0]))")
